@@ -1318,8 +1318,18 @@ inline size_t Chunk::GetNlCount() const
 }
 
 
+#ifdef UNCRUSTIFY_VERIF
+//! observation hook (verif_hooks.cpp): records the write while do_blank_lines() runs
+void verif_nl_write(const Chunk *pc, size_t old_cnt, size_t new_cnt);
+
+#endif
+
+
 inline void Chunk::SetNlCount(size_t cnt)
 {
+#ifdef UNCRUSTIFY_VERIF
+   verif_nl_write(this, m_nlCount, cnt);
+#endif
    m_nlCount = cnt;
 }
 
